@@ -71,12 +71,16 @@ def run_region(stmts, init, fname, out, qual):
     return sinks
 def r_C29(root):
     t = load(root, E); out = []; inst = 0
-    ex = find(t, "model_export_to_file._export")
-    # sources: attr_value (getattr), list elements; safe: attr_name (grammar identifier), idx, endmark, required
-    init = {"attr_value": True, "list_obj": True, "x": True, "attr_name": False, "idx": False, "obj": False, "attr": False, "obj_cls": False}
-    inst += run_region(ex.body, init, E, out, "model_export_to_file._export")
-    sg = find(t, "model_export_to_file._export_subgraph")
-    inst += run_region(sg.body, {"m": False, "obj": False}, E, out, "model_export_to_file._export_subgraph")
+    top = find(t, "model_export_to_file")
+    # every nested writer of the model exporter (whatever it is called): sources are attr_value (getattr) and list elements;
+    # safe: attr_name (grammar identifier), idx, endmark, required, and the writers' own parameters (objects / labels the caller escaped)
+    init = {"attr_value": True, "list_obj": True, "x": True, "attr_name": False, "idx": False, "obj": False, "attr": False, "obj_cls": False, "m": False}
+    writers = [f_ for f_ in ast.walk(top) if isinstance(f_, ast.FunctionDef) and f_ is not top and any(callee_name(c) == "write" for c in calls(f_, own=True))]
+    if not writers: raise AnalysisError("model_export_to_file: nested writers not found")
+    for f_ in writers:
+        ini = dict(init)
+        for a_ in f_.args.args: ini.setdefault(a_.arg, False)
+        inst += run_region(f_.body, ini, E, out, "model_export_to_file." + f_.name)
     # C29.b escape table, by evaluation (sa/pyeval.py) of dot_escape on sample texts: every character that is special inside a
     # record label comes out backslash-escaped exactly once (a newline as \n), other characters unchanged
     from sa import pyeval as _pe
